@@ -75,6 +75,9 @@ pub fn check(w: Which, r: &Runner, ctx: &mut Ctx, l: &mut Local, rec: &CaseRec) 
     if rec.sub == "c14-kept-identical" {
         return check_kept_identical(r, ctx, l, rec);
     }
+    if rec.sub == "c10-reuse" {
+        return check_c10_reuse(r, l, rec);
+    }
     let obs = run_rec(ctx, rec);
     if let St::Panic(msg) = &obs.st {
         return Err(Violation::new(
@@ -546,6 +549,83 @@ fn c14_combos() -> Vec<(Entry, u8)> {
     v
 }
 
+/// C10 on a reused value: after a call that did not complete, the value still lends the
+/// caller's whole array (C17), so the error kind of the next call — and in particular
+/// "TooManyHeaders exactly when one more header than the array can hold was received" —
+/// is judged by the model with the *original* capacity.
+fn check_c10_reuse(r: &Runner, l: &mut Local, rec: &CaseRec) -> Result<(), Violation> {
+    let kind = rec.kind();
+    let first: &[u8] = rec.bufs.first().map(|b| &b[..]).unwrap_or(&[]);
+    let seq: [&[u8]; 2] = [first, &rec.buf];
+    IN_PARSER.with(|c| c.set(true));
+    let res = std::panic::catch_unwind(std::panic::AssertUnwindSafe(|| super::p_hist::run_sequence(kind, rec.entry, rec.cfg, &seq, rec.cap)));
+    IN_PARSER.with(|c| c.set(false));
+    let Ok(obs) = res else {
+        return Err(Violation::new("C10/panic", "a call on a reused value panicked", rec));
+    };
+    if matches!(obs[0].st, St::Complete(_)) {
+        // a completed call legitimately leaves fewer slots; not this phase's subject
+        r.account(l, rec, false, "");
+        return Ok(());
+    }
+    let m = model::model(kind, &rec.buf, rec.cfg, rec.cap);
+    let m_tmh = matches!(&m.verdict, Verdict::Err { kinds, .. } if kinds.has(ErrKind::TooManyHeaders));
+    let r_tmh = matches!(obs[1].st, St::Err(ErrKind::TooManyHeaders));
+    let kind_ok = match (&obs[1].st, &m.verdict) {
+        (St::Err(k), Verdict::Err { kinds, .. }) | (St::Err(k), Verdict::PartialOrErr { kinds, .. }) => kinds.has(*k),
+        _ => true,
+    };
+    if m_tmh != r_tmh || !kind_ok {
+        return Err(Violation::new(
+            format!("C10/reused-value/real-{}/model-{}", obs[1].st.class(), m.verdict.class()),
+            format!("after a first call that gave {} on {:?}, the same value gives {} for the second buffer; the model (capacity {} — a call that does not complete leaves the caller's whole array in place) says {} [{} cfg={:#04x}]",
+                obs[0].st.show(), crate::engine::show_bytes(first, 80), obs[1].st.show(), rec.cap, m.verdict.show(), rec.entry.name(), rec.cfg),
+            rec,
+        ));
+    }
+    if l.counting {
+        l.bump(status_hist_key(&obs[1].st));
+    }
+    r.account(l, rec, matches!(obs[1].st, St::Err(_)) && matches!(obs[0].st, St::Err(_) | St::Partial), "second call on a reused value");
+    Ok(())
+}
+
+fn phase_c10_reuse(r: &Runner) {
+    let prof = Profile { truncate: 30, mutate: 60, ..Profile::DEFAULT };
+    r.par_random(
+        "a non-completing first call (G1 message, prefix of the second, or a message with more headers than the array holds) then a second call on the same value: error kind / TooManyHeaders judged by the model with the original capacity",
+        r.amount(1_000_000, 15_000_000),
+        420,
+        |u: &mut Choice| {
+            let kind = if u.chance(128) { Kind::Response } else { Kind::Request };
+            let (second, nlines) = gen::message(u, kind, &prof);
+            let mut cfg = pick_cfg(u);
+            let entry = pick_entry(u, kind, &mut cfg);
+            let cap = pick_cap(u, nlines);
+            let first = match u.weighted(&[100, 60, 96]) {
+                0 => gen::message(u, kind, &prof).0,
+                1 => {
+                    let k = u.below(second.len() + 1);
+                    second[..k].to_vec()
+                }
+                _ => {
+                    // more well-formed headers than the array holds
+                    let mut b = if kind == Kind::Request { b"GET / HTTP/1.1\r\n".to_vec() } else { b"HTTP/1.1 200 OK\r\n".to_vec() };
+                    for i in 0..cap + 1 + u.below(3) {
+                        b.extend_from_slice(format!("H{}: v\r\n", i).as_bytes());
+                    }
+                    b.extend_from_slice(b"\r\n");
+                    b
+                }
+            };
+            let mut rec = CaseRec::new("c10-reuse", entry, cfg, cap, second);
+            rec.bufs = vec![first];
+            rec
+        },
+        &|ctx, l, rec| check(Which::C10, r, ctx, l, rec),
+    );
+}
+
 /// C10: TooManyHeaders precedence — k well-formed lines, capacity 0..=k+1, the
 /// (cap+1)-th line cut at every byte, followed or not by a syntax error, folding on/off.
 fn phase_too_many(r: &Runner, w: Which) {
@@ -927,6 +1007,7 @@ pub fn run(w: Which, r: &Runner) {
         }
         Which::C10 => {
             phase_too_many(r, w);
+            phase_c10_reuse(r);
             phase_start_sweep(Which::C10, r);
             // response bases too
             c10_resp_sweep(r);
